@@ -4,6 +4,7 @@ import Driver.L2
 import Driver.L3
 import Driver.L4
 import Driver.L5
+import Driver.L6
 open Clap.Driver
 
 def dispatch (line : String) : String :=
@@ -26,6 +27,9 @@ def dispatch (line : String) : String :=
     | some r => r
     | none =>
     match handleL5 cmd args with
+    | some r => r
+    | none =>
+    match handleL6 cmd args with
     | some r => r
     | none => "bad-op"
 
